@@ -250,6 +250,15 @@ class UnusedTranslator:
                 UniqueVariables(rules[0]), prg.index(rules[0]), list(hlit.atom.symbol.arguments), blit.atom.symbol
             )
 
+        # a copy of a copy (a :- b. b :- c.) is resolved in the next round, after b has been replaced by c,
+        # otherwise a is replaced by b while the rule that defines b is removed
+        for head in [
+            head
+            for head, mapper in mapping.items()
+            if Predicate(mapper.symbol.name, len(mapper.symbol.arguments)) in mapping
+        ]:
+            del mapping[head]
+
         used: set[int] = set()
 
         def convert(atom: AST) -> AST:
